@@ -15,7 +15,7 @@ def cases(tier, seed):
 
 
 def make_context(tier, seed):
-    return S.make_context(tier, seed)
+    return S.make_context(tier, seed, ["finalize", "n_advance"])
 
 
 def nontrivial(res, case):
